@@ -48,7 +48,7 @@ Proof. intros reg r n. unfold set_valid. rewrite orb_true_iff, andb_true_iff, Z.
 (* the four outcomes of the server's choice of send compressor *)
 Lemma server_send_cases : forall reg r rc v0 v1 ct, server_send reg r rc = (v0, v1, ct) ->
   (v0 = scp r /\ v1 = 0 /\ ct = scp r /\ scp r <> 0) \/
-  (v0 = (if scp r =? 0 then 0 else scp r) /\ v1 = (if reg (setn r) then setn r else 0) /\ ct = setn r /\
+  (v0 = 0 /\ v1 = (if reg (setn r) then setn r else 0) /\ ct = setn r /\
    set_valid reg r (setn r) = true /\ setn r <> 0) \/
   (v0 = 0 /\ v1 = rc /\ ct = rc /\ plain rc = false /\ reg rc = true /\ scp r = 0) \/
   (v0 = 0 /\ v1 = 0 /\ ct = 0 /\ scp r = 0).
@@ -85,21 +85,19 @@ Lemma flag_rule_z : forall n m, plain n = true -> flag_of 0 m = rule n m.
 Proof. intros n m Hp. unfold flag_of, rule. rewrite Hp. reflexivity. Qed.
 
 (* responses: the same, for every registry in which "" and "identity" are not compressors,
-   unless the server combines the legacy RPCCompressor with SetSendCompressor("identity") *)
+   every server default (legacy RPCCompressor included) and every SetSendCompressor *)
 Theorem flag_response : forall reg r rc v0 v1 ct m, reg 0 = false -> reg 1 = false ->
   scp r <> 1 -> server_send reg r rc = (v0, v1, ct) ->
-  ~ (scp r <> 0 /\ setn r = 1) ->
   flag_of (pick v0 v1) m = rule ct m.
 Proof.
-  intros reg r rc v0 v1 ct m R0 R1 Hs H Hn.
+  intros reg r rc v0 v1 ct m R0 R1 Hs H.
   destruct (server_send_cases _ _ _ _ _ _ H) as [[A1 [A2 [A3 A4]]]|[[B1 [B2 [B3 [B4 B5]]]]|[[C1 [C2 [C3 [C4 [C5 C6]]]]]|[D1 [D2 [D3 D4]]]]]]; subst.
   - unfold pick. cbn [Z.eqb negb]. apply flag_rule_nz; [assumption|]. apply plain_false. lia.
   - apply set_valid_pre in B4. unfold pick. destruct (reg (setn r)) eqn:Rs.
     + assert (setn r <> 0 /\ setn r <> 1) by (split; intro Q; rewrite Q in Rs; congruence).
       replace (setn r =? 0) with false by lia. cbn [negb]. apply flag_rule_nz; [lia|]. apply plain_false. lia.
     + cbn [Z.eqb negb]. destruct B4 as [B4|[B4 _]]; [|congruence]. rewrite B4 in *.
-      destruct (scp r =? 0) eqn:S0; [apply flag_rule_z; reflexivity|].
-      exfalso. apply Hn. split; [lia|reflexivity].
+      apply flag_rule_z. reflexivity.
   - apply plain_false in C4. unfold pick. replace (rc =? 0) with false by lia. cbn [negb].
     apply flag_rule_nz; [lia|]. apply plain_false. lia.
   - apply flag_rule_z. reflexivity.
@@ -110,11 +108,23 @@ Theorem flag_empty_refuted : exists r rc l,
   client_send reg0 r = Some rc /\ plain rc = false /\ l = 0 /\ flag_of (client_codec r) l = 0.
 Proof. exists (mkRpc 2 0 0 None 0 0 0 [(0, 7)]), 2, 0. vm_compute. auto. Qed.
 
-(* ... and for legacy RPCCompressor + SetSendCompressor("identity"): header identity, flag 1 *)
-Theorem flag_legacy_identity_refuted : exists r rc v0 v1 ct m,
-  server_send reg0 r rc = (v0, v1, ct) /\ ct = 1 /\ m <> 0 /\ flag_of (pick v0 v1) m = 1 /\
-  run_rpc reg0 r = [cInternal; 1; 1; 0; 1; 1; 0; 1; 0; 1; 1].
-Proof. exists (mkRpc 0 0 0 None 3 0 1 [(5, 5)]), 0, 3, 0, 1, 5. vm_compute. repeat split; congruence. Qed.
+(* legacy RPCCompressor + SetSendCompressor("identity") (the repaired defect): the header says
+   identity, the legacy compressor is dropped and no message is flagged; the old witness
+   now completes with status OK *)
+Theorem flag_legacy_identity_fixed : forall reg r rc m, reg 1 = false ->
+  scp r <> 0 -> scp r <> 1 -> setn r = 1 ->
+  server_send reg r rc = (0, 0, 1) /\ flag_of (pick 0 0) m = 0.
+Proof.
+  intros reg r rc m R1 H0 H1 Hs. split; [|reflexivity].
+  unfold server_send, server_default, set_valid. rewrite Hs, R1.
+  replace (scp r =? 0) with false by lia. cbn [negb andb orb]. change (1 =? 0) with false.
+  change (1 =? 1) with true. cbn [negb andb orb].
+  replace (1 =? scp r) with false by lia. reflexivity.
+Qed.
+
+Theorem legacy_identity_witness :
+  run_rpc reg0 (mkRpc 0 0 0 None 3 0 1 [(5, 5)]) = [0; 1; 1; 0; 1; 1; 1; 1; 0; 1; 0].
+Proof. vm_compute. reflexivity. Qed.
 
 (* ---------- the server's choice ---------- *)
 
@@ -256,6 +266,18 @@ Proof.
     + inversion H; subst. cbn [flag_rows]. apply Hrow. destruct (map fst rs); reflexivity.
 Qed.
 
+Lemma play_fs_zero : forall cc sc ct d, (forall m, flag_of sc m = 0) ->
+  forall rs code dq dr qs fs, play cc sc ct d rs = (code, dq, dr, qs, fs) ->
+  forallb (fun f => f =? 0) fs = true.
+Proof.
+  intros cc sc ct d Hz. induction rs as [|[l m] rs IH]; intros code dq dr qs fs H.
+  - inversion H; subst. reflexivity.
+  - cbn [play] in H. destruct (client_takes ct d (if flag_of sc m =? 1 then sc else 0)).
+    + destruct (play cc sc ct d rs) as [[[[c1 q1] r1] qs1] fs1] eqn:P. inversion H; subst.
+      cbn [forallb]. rewrite Hz. cbn. eapply IH. reflexivity.
+    + inversion H; subst. cbn [forallb]. rewrite Hz. reflexivity.
+Qed.
+
 Lemma play_rrows : forall cc sc ct d enc cl, (forall l, flag_of sc l = rule enc l) ->
   forall rs i code dq dr qs fs, play cc sc ct d rs = (code, dq, dr, qs, fs) ->
   forallb row_ok (flag_rows cl enc (map snd rs) fs i) = true.
@@ -293,15 +315,6 @@ Definition rpc_wf (r : rpc) : Prop := wc r <> 1 /\ scp r <> 1 /\ rounds r <> [].
 
 Lemma reg0_01 : reg0 0 = false /\ reg0 1 = false.
 Proof. split; reflexivity. Qed.
-
-Lemma legacy_identity_send : forall reg r rc, scp r <> 0 -> scp r <> 1 -> setn r = 1 ->
-  exists v1, server_send reg r rc = (scp r, v1, 1).
-Proof.
-  intros reg r rc H0 H1 Hs. unfold server_send, server_default, set_valid. rewrite Hs.
-  replace (scp r =? 0) with false by lia. cbn [negb andb orb]. change (1 =? 0) with false.
-  change (1 =? 1) with true. cbn [negb andb orb].
-  replace (1 =? scp r) with false by lia. eauto.
-Qed.
 
 Lemma accepts_row6 : forall reg r rc, server_accepts reg r rc = true ->
   negb (plain rc) && negb (reg rc) && negb (sdc r =? rc) = false.
@@ -410,15 +423,18 @@ Proof.
   destruct PC as [P1 [P2 [P3 [P4 [P5 P6]]]]].
   unfold rows_req. rewrite (play_qrows _ _ _ _ rc 1 Hq _ _ _ _ _ _ _ PL).
   rewrite rows_count_ok by (destruct P6; lia).
+  assert (Hrule: forall l0, flag_of (pick v0 v1) l0 = rule ct l0).
+  { intro l0. destruct reg0_01 as [Q0 Q1]. exact (flag_response reg0 r rc v0 v1 ct l0 Q0 Q1 Hscp SS). }
   assert (Hresp: forallb row_ok (rows_resp r ct fs) = true).
   { unfold rows_resp. destruct (negb (scp r =? 0) && (setn r =? 1) && plain ct) eqn:F8.
-    - clear. induction fs as [|f fs IH]; [reflexivity|]. cbn [map forallb]. rewrite IH. reflexivity.
-    - apply (play_rrows _ _ _ _ ct 2) with (rs := rounds r) (i := 0) in PL; [exact PL|].
-      intro l0. destruct reg0_01 as [Q0 Q1].
-      apply (flag_response reg0 r rc v0 v1 ct l0 Q0 Q1 Hscp SS).
-      intros [N1 N2]. destruct (legacy_identity_send reg0 r rc N1 Hscp N2) as [w E].
-      rewrite E in SS. inversion SS; subst ct.
-      replace (scp r =? 0) with false in F8 by lia. rewrite N2 in F8. cbn in F8. discriminate. }
+    - apply andb_true_iff in F8. destruct F8 as [_ Pc].
+      assert (Hz: forall m0, flag_of (pick v0 v1) m0 = 0).
+      { intro m0. rewrite Hrule. unfold rule. rewrite Pc. reflexivity. }
+      pose proof (play_fs_zero _ _ _ _ Hz _ _ _ _ _ _ PL) as Z0. clear - Z0.
+      induction fs as [|f fs IH]; [reflexivity|]. cbn [forallb map] in *.
+      apply andb_true_iff in Z0. destruct Z0 as [Z1 Z2]. rewrite Z1, (IH Z2).
+      unfold row_ok. cbn [snd]. rewrite orb_true_r. reflexivity.
+    - apply (play_rrows _ _ _ _ ct 2) with (rs := rounds r) (i := 0) in PL; [exact PL|exact Hrule]. }
   rewrite Hresp. unfold rows_unsupp. rewrite A6. cbn [andb forallb].
   assert (R6: (if existsb (fun f => f =? 1) fs &&
                   (plain ct || (negb (reg0 ct) && negb (wd r =? ct)))
@@ -459,11 +475,13 @@ Proof.
       rewrite (rpc_holds r (parse_op_wf _ _ P)). exact R2.
 Qed.
 
-(* the three finding clauses are false on the model's own trace of their witnesses *)
+(* the two finding clauses are false on the model's own trace of their witnesses; the
+   repaired clause 8 is evaluated on its old witness and holds *)
 Theorem finding_clauses_fail_on_model :
   let ops := [[1; 2; 0; 0; 0; 0; 0; 0; 1; 0; 7]; [1; 0; 0; 0; 0; 3; 0; 1; 1; 5; 5];
               [1; 0; 0; 0; 1; 3; 0; 0; 1; 5; 5]] in
   forallb op_wf ops = true /\
   exists obs, run ops = Some obs /\
-    filter (fun c => negb (snd c)) (clauses ops obs) = [(7, 0, false); (8, 0, false); (9, 0, false)].
-Proof. cbv zeta. split; [vm_compute; reflexivity|]. eexists. split; vm_compute; reflexivity. Qed.
+    filter (fun c => negb (snd c)) (clauses ops obs) = [(7, 0, false); (9, 0, false)] /\
+    existsb (fun c => (fst (fst c) =? 8) && snd c) (clauses ops obs) = true.
+Proof. cbv zeta. split; [vm_compute; reflexivity|]. eexists. split; [vm_compute; reflexivity|]. split; vm_compute; reflexivity. Qed.
